@@ -138,8 +138,8 @@ def sha256New : Bytes := []
 def hashWrite (h : Bytes) (b : Bytes) : Bytes := h ++ b
 def hashSum (W : World) (h : Bytes) (pre : Bytes) : Bytes := pre ++ W.D h
 
-/-! ### the rest of the package (lang.go is read structurally: `Gen/Lang.lean`, `Model/Lang.lean`) -/
-def langList (lg : Int) : List Str := Model.list lg
+/-! ### the rest of the package (`Language.list` is translated like any other function;
+`Language.mapping`, with its `sync.Once` closures, is read structurally: `Gen/Lang.lean`, `Model/Lang.lean`) -/
 def langMapping (lg : Int) : M (Option Nat) := fun s =>
   let r := Model.mapping s.pkg lg
   (.ok r.2, { s with pkg := r.1 })
